@@ -193,7 +193,8 @@ def refactors(args):
                 continue
             for prop in PROPS:
                 t0 = time.time()
-                rc, out = _run_check(prop, 0, {"VERIF_REPO": d, "VERIF_OUT": d + "/out"}, scale="1")
+                rc, out = _run_check(prop, 0, {"VERIF_REPO": d, "VERIF_OUT": d + "/out"},
+                                     scale=os.environ.get("VERIF_RF_SCALE", "1"))
                 viol = [ln for ln in out.splitlines() if ln.startswith("violation detail")]
                 ok = rc == 0
                 if not ok:
